@@ -1,5 +1,6 @@
 import HabuVerif.Proofs.Confluence3
 import HabuVerif.Props.C01
+import HabuVerif.Proofs.Frame
 /-!
 # C05 — The result depends only on year, requested forms and input values
 -/
@@ -146,3 +147,26 @@ end HabuVerif.C05.Examples
 
 #print axioms HabuVerif.C05.schedule_independent
 #print axioms HabuVerif.C05.no_error_outcome_in_final
+
+/-! ## frame: a line outcome is a function of the names its program text can read
+
+`Proofs/Frame.lean`: for the REGENERATED catalogue of any year, whatever name the solver attempts, two pairs
+of stores that agree on the names described by the syntactic read sets of the line behind it give the same
+outcome (value, blank, not implemented, error, missing input or line).  Together with `schedule_independent`
+this is the "depends only on ... input values" half at the level of one evaluation: nothing else in the
+stores, and no ambient state, can influence a line. -/
+namespace HabuVerif.C05
+open HabuVerif.Dsl
+
+theorem line_outcome_depends_only_on_read_names (y : YearDecl) (n : String)
+    (vs vs' : String → Option Val) (is is' : String → InpRes Val) (fs : String → Bool)
+    (hv : ∀ m, (∃ f k c inst d, splitName n = some (f, k) ∧ y.resolveForm f = some (c, inst) ∧ d ∈ c.lines ∧
+        d.name = k ∧ ∃ p ∈ refsV d, KeyPat.Names c.name inst p m) → vs m = vs' m)
+    (hi : ∀ x, (∃ f k c inst d, splitName n = some (f, k) ∧ y.resolveForm f = some (c, inst) ∧ d ∈ c.lines ∧
+        d.name = k ∧ ∃ p ∈ refsI d, KeyPat.Names c.name inst p x) → is x = is' x) :
+    run vs is fs ((mkCat y).sem n) = run vs' is' fs ((mkCat y).sem n) :=
+  cat_frame y n vs vs' is is' fs hv hi
+
+end HabuVerif.C05
+
+#print axioms HabuVerif.C05.line_outcome_depends_only_on_read_names
